@@ -27,10 +27,14 @@ import (
 	"verifharness/internal/core"
 )
 
+// knownTagsOther is the classifier of the one known finding of this property
+// (known_findings.json).  knownRegime and knownOrderTax label unresolved
+// references that were known findings once and are repaired in /repo
+// (known_findings.json -> fixed); they are no entries of the findings list any
+// more, so core.Fail reports them as VIOLATIONs, as it does for an undefined
+// `prices_include` category and for extensions of stored tax summaries.
 const (
 	knownRegime    = "undefined_regime_accepted"
-	knownIncludes  = "prices_include_category_unchecked"
-	knownStoredTax = "stored_tax_summary_ext_unchecked"
 	knownTagsOther = "tags_unchecked_outside_invoices"
 	knownOrderTax  = "order_tax_object_unvalidated"
 )
@@ -511,17 +515,20 @@ func extractItems(p *pub, doc map[string]any) []item {
 		if country != "" {
 			applies = country
 		}
-		switch {
-		case !definedRegime(applies):
+		if !definedRegime(applies) {
 			it.known = knownRegime
-		case kind == "includes":
-			it.known = knownIncludes
 		}
 		out = append(out, it)
 	}
+	// tax.prices_include: a category of the document's regime (bill.Tax validation)
 	if t, ok := doc["tax"].(map[string]any); ok {
 		if s, ok := t["prices_include"].(string); ok && s != "" {
-			comboItem(s, "", "", ".tax.prices_include", "includes")
+			it := item{req: hx("includes") + " " + hx(regime) + " " + hx(s),
+				what: fmt.Sprintf("tax.prices_include %q (regime %q)", s, regime), path: ".tax.prices_include", kind: "includes"}
+			if !definedRegime(regime) {
+				it.known = knownRegime
+			}
+			out = append(out, it)
 		}
 	}
 	var walk func(v any, path string)
@@ -592,10 +599,10 @@ func extractItems(p *pub, doc map[string]any) []item {
 							}
 							it := item{req: hx("ext") + " " + hx(ek) + " " + hx(s) + " " + hx(def.Pattern) + " " + hx(matched),
 								what: "extension " + ek + "=" + s, path: pp, kind: "ext"}
-							switch {
-							case strings.Contains(pp, ".tax.categories[") && !strings.HasPrefix(pp, ".totals."):
-								it.known = knownStoredTax
-							case sch == "bill/order" && pp == ".tax.ext":
+							if strings.Contains(pp, ".tax.categories[") && !strings.HasPrefix(pp, ".totals.") {
+								it.kind = "ext-stored" // a stored tax summary: tax.RateTotal.Validate
+							}
+							if sch == "bill/order" && pp == ".tax.ext" {
 								it.known = knownOrderTax
 							}
 							out = append(out, it)
